@@ -5,6 +5,7 @@ CONSTANTS
   NDown = 2
   MaxFaults = 6
   MaxDrops = 1
+  MaxStalls = 1
 SPECIFICATION GenSpec
 INVARIANTS TypeOK PrefixDelivered OnlyOwnSegments OneAcceptPerSession OneCurrent NeverDead
 CHECK_DEADLOCK FALSE
